@@ -27,7 +27,7 @@ fn spec(t: Tier) -> Spec {
     Spec {
         id: "C18",
         level: "exploration",
-        rule: format!("every list of <= {} starting points over {} spellings (directory, ./, trailing /, //, /., ../, absolute, missing, file, link to directory with and without trailing /, dangling link, names beginning with ( and !; lists of <= 2 also under -H and -L) (plus, through -files0-from only: the empty name, a name starting with '-', a name containing a newline) is walked by find_main; the -print0 output must be the concatenation, in order, of the per-root reference walks with every path beginning with the root exactly as spelled; each argv list is also given as -files0-from FILE (with and without final NUL) and must give byte-identical output; missing roots must be diagnosed with non-zero status without affecting the others; the no-root case must equal '.' (also for expressions beginning with '!' or '(', after -H/-L/-P, and for expressions selecting nothing); lists with a missing starting point under six -mindepth/-maxdepth windows (two of them empty): diagnosed, non-zero, the others walked; an empty name is skipped (at most one diagnostic per empty name and no report of an attempt to examine it); alignment sweep: lists of ~1400 and ~2800 names with the terminator of a name at every byte offset 8186..8198 and 16380..16388 (FILE and stdin); binary slice: -files0-from - on stdin; environment cases: a -files0-from list written to a pipe in three pieces; four starting points (one missing) with standard output on /dev/full — all still processed, seen through -fprint; a list holding a name that is not valid UTF-8 (walked, or refused loudly — a look-alike with the lossy spelling exists and must not be walked in its place); starting points that cannot be examined for other reasons than ENOENT (a link to itself, a cycle of one link through a sub-path, a 300-byte name, a path through a file) in three positions between two that are fine, x -P/-H/-L x command line / -files0-from; scale slice: 3000 starting points (18 000-byte list) on the command line, via -files0-from FILE and via -files0-from - with and without a final NUL; 255, 256, 257 and 512 missing starting points followed by an existing one through the binary (every one diagnosed, exit status non-zero, the existing one walked); non-trivial = list with >= 2 roots or a non-canonical spelling", bounds(t), ARGV_ROOTS.len()),
+        rule: format!("every list of <= {} starting points over {} spellings (directory, ./, trailing /, //, /., ../, absolute, missing, file, link to directory with and without trailing /, dangling link, names beginning with ( and !; lists of <= 2 also under -H and -L) (plus, through -files0-from only: the empty name, a name starting with '-', a name containing a newline) is walked by find_main; the -print0 output must be the concatenation, in order, of the per-root reference walks with every path beginning with the root exactly as spelled; each argv list is also given as -files0-from FILE (with and without final NUL) and must give byte-identical output; missing roots must be diagnosed with non-zero status without affecting the others; the no-root case must equal '.' (also for expressions beginning with '!' or '(', after -H/-L/-P, and for expressions selecting nothing); lists with a missing starting point under six -mindepth/-maxdepth windows (two of them empty): diagnosed, non-zero, the others walked; an empty name is skipped (at most one diagnostic per empty name and no report of an attempt to examine it); alignment sweep: lists of ~1400 and ~2800 names with the terminator of a name at every byte offset 8186..8198 and 16380..16388 (FILE and stdin); binary slice: -files0-from - on stdin; environment cases: a -files0-from list written to a pipe in three pieces; four starting points (one missing) with standard output on /dev/full — all still processed, seen through -fprint; a list holding a name that is not valid UTF-8 (walked, or refused loudly — a look-alike with the lossy spelling exists and must not be walked in its place); starting points that cannot be examined for other reasons than ENOENT (a link to itself, a cycle of one link through a sub-path, a 300-byte name, a path through a file) in three positions between two that are fine, x -P/-H/-L x command line / -files0-from; 150 starting points (operands and -files0-from) with 64 file descriptors, with -xdev/-mount and without; scale slice: 3000 starting points (18 000-byte list) on the command line, via -files0-from FILE and via -files0-from - with and without a final NUL; 255, 256, 257 and 512 missing starting points followed by an existing one through the binary (every one diagnosed, exit status non-zero, the existing one walked); non-trivial = list with >= 2 roots or a non-canonical spelling", bounds(t), ARGV_ROOTS.len()),
         bound: json!({"max_roots": bounds(t), "argv_spellings": ARGV_ROOTS, "files0_only": FILES0_ONLY}),
         assumptions: vec!["exit status after an empty -files0-from name is not judged (statement: 'diagnosed and skipped')".into()],
         shards: 0,
